@@ -461,6 +461,11 @@ impl<T: Copy> Buffer<T> {
             n,
             s.used
         );
+        if n == 0 {
+            // Nothing consumed: no tags to discard (with newpos == rpos the
+            // wrap branch below would discard them all).
+            return;
+        }
         let newpos = (s.rpos + n) % s.capacity();
         use std::ops::Bound::{Excluded, Included};
 
